@@ -67,12 +67,20 @@ def arg (as : List (String × String)) (k : String) : String :=
 def argNat (as : List (String × String)) (k : String) : Nat := (arg as k).toNat?.getD 0
 def argInt (as : List (String × String)) (k : String) : Int := (arg as k).toInt?.getD 0
 
+/-- A flag word: a number, or the name of a flag constant — then its *documented* value (the
+implementation side of the comparison uses the package's own constant). -/
+def flagWord (s : String) : Nat :=
+  match s with
+  | "Uppers" => 1 | "Lowers" => 2 | "Digits" => 4 | "Symbols" => 8 | "Ambiguous" => 16
+  | "None" => 0 | "Letters" => 3 | "All" => 15
+  | _ => s.toNat?.getD 0
+
 /-- `L/allow/require/exclude/allowChars/requireSets/excludeChars`. -/
 def parseRecipe (s : String) : CharRecipe :=
   match s.splitOn "/" with
   | [l, a, q, x, ac, rs, ec] =>
-    { length := l.toInt?.getD 0, allow := a.toNat?.getD 0, require := q.toNat?.getD 0,
-      exclude := x.toNat?.getD 0, allowChars := parseCps ac, requireSets := parseList rs,
+    { length := l.toInt?.getD 0, allow := flagWord a, require := flagWord q,
+      exclude := flagWord x, allowChars := parseCps ac, requireSets := parseList rs,
       excludeChars := parseCps ec }
   | _ => default
 
